@@ -58,8 +58,8 @@ reg("C12", "rules_consts", "check_C12", "proof",
 
 reg("C01", "rules_c01", "check_C01", "other",
     "instances = every MIR Aggregate(TwoFloat) site and every TwoFloat constant of the crate (non-test), every function returning TwoFloat; non-trivial = not the {x, 0.0} form",
-    "Inductive constructor discipline. R1 (N/S): every aggregate site is one of the closed set k1 EFT primitive (by conformance), k2 zero low word, k3 constant pair valid in exact rationals / explicit non-finite marker, k4 word-wise negation, k5 dominated by no_overlap(hi,lo)==true, k6 hi rounded under modf(lo).0==0, k7 both words scaled alike; every TwoFloat constant and table entry is valid (exact rationals). R1b: no in-place word stores. R2: functions return only parameters/constants/classified aggregates/crate calls. R3: fields are not public, unsafe is forbidden. This decides WHERE validity is created and that there is nowhere else; it does not re-prove Fast2Sum's ordering precondition at each call site (numeric, not decided).",
-    COMMON_ASSUME + ["Fast2Sum ordering preconditions at call sites and subnormal low words in k6/k7 are not decided"])
+    "Inductive constructor discipline. R1 (N/S): every aggregate site is one of the closed set k1 EFT primitive (by conformance), k2 zero low word, k3 constant pair valid in exact rationals / explicit non-finite marker, k4 word-wise negation, k5 dominated by no_overlap(hi,lo)==true, k6 hi rounded under modf(lo).0==0 (independently scaled words are not accepted: defect D8); every TwoFloat constant and table entry is valid (exact rationals). R1b: no in-place word stores. R2: functions return only parameters/constants/classified aggregates/crate calls. R3: fields are not public, unsafe is forbidden. This decides WHERE validity is created and that there is nowhere else; it does not re-prove Fast2Sum's ordering precondition at each call site (numeric, not decided).",
+    COMMON_ASSUME + ["Fast2Sum ordering preconditions at call sites are not decided"])
 
 reg("C06", "rules_base", "check_C06", "other",
     "instances = NaN-screen obligations (2 functions x 4 words), decision tables of eq / partial_cmp / mixed f64 comparisons and their mirrors / min / max / sign queries",
